@@ -26,20 +26,31 @@ def env_offline():
     return env
 
 
+def split_variant(backend):
+    """'f64' / 'dec' / 'f64-rel' / 'dec-rel' -> (amount back-end, cargo profile)"""
+    if backend.endswith("-rel"):
+        return backend[:-4], "rel"
+    return backend, "dev"
+
+
 def target_dir(backend):
     return os.path.join(BUILD, "target-" + backend)
 
 
 def drive_bin(backend):
-    return os.path.join(target_dir(backend), "debug", "qv-drive")
+    be, profile = split_variant(backend)
+    return os.path.join(target_dir(backend), "debug" if profile == "dev" else profile, "qv-drive")
 
 
 def build_drive(backend, quiet=True):
-    """(Re)build the E1 driver for one back-end from /repo's current working tree."""
-    feats = "astro" if backend == "f64" else "dec"
+    """(Re)build the E1 driver for one back-end (and cargo profile) from /repo's current working tree."""
+    be, profile = split_variant(backend)
+    feats = "astro" if be == "f64" else "dec"
     env = env_offline()
     env["CARGO_TARGET_DIR"] = target_dir(backend)
     cmd = ["cargo", "build", "--offline", "-p", "qv-drive", "--features", feats]
+    if profile != "dev":
+        cmd += ["--profile", profile]
     t0 = time.time()
     p = subprocess.run(cmd, cwd=HARNESS, env=env, stdout=subprocess.PIPE, stderr=subprocess.STDOUT, text=True)
     if p.returncode != 0:
